@@ -1,6 +1,7 @@
 import TxVerif.Props.C03
 import TxVerif.Tie.Order
 import TxVerif.Props.C03Refine
+import TxVerif.Props.C04C07Engine
 open TxVerif
 #print axioms writer_order
 #print axioms writer_order_last
@@ -22,3 +23,5 @@ open TxVerif
 #print axioms runTxn_inv
 #print axioms c03_history_partial
 #print axioms runInv_start
+#print axioms engInv_create_nometa
+#print axioms engInv_create_any
